@@ -147,6 +147,15 @@ CLAIMED = {
          "shipped P4Info: outputs identical, and gofmt(output) identical to the committed internal/p4constants/p4constants.go.",
          "Only the clauses the statement lists are checked (not, e.g., canonical byte strings or masked ternary values); inputs are sampled around the boundaries, not enumerated; the constants comparison is a direct regeneration, not a model. " + TRUST,
          "5 C16"),
+ "C11": ("TLA+ R-specs Pfcp + BessImage + Up4Image: traces of concurrent request streams of 2-8 associations of the real agent (half under the race detector), consumed one at a time by the reference state machine; TLC judges responses, final tables and pools",
+         "Every association runs its own stream of establishments, modifications and deletions (UP4: also sharing gNB peers and application filters across associations) while the others do the same, on the harness BESS server and on the "
+         "harness P4Runtime switch. The steps of a concurrent phase are recorded in the order their answers arrived; TLC consumes them as a one-at-a-time history (per-step C02 response invariants, SEID / TEID freshness) and, at the end of each "
+         "phase with the datapath quiet, evaluates TablesAreImage (BESS: C03, UP4: C04) for the union of all associations' sessions, the UP4 identifier invariants of C15, and after the final concurrent deletion of everything the pool "
+         "occupancy invariants of C05 (addresses, TEIDs, session records, gauge). Shards 2,3 of every four run the -race build of the agent: a race report (first repository frames of both accesses) or a runtime crash is a trace event "
+         "no action of the specification consumes. Lifecycle-level interleavings of the same goroutines are model-checked in Lifecycle.tla (C10).",
+         "Interleavings are those the Go scheduler produced (sampled, with randomised pacing by the peers), not enumerated; sessions of different associations are disjoint except for the shared objects named above, so every order of the "
+         "recorded steps denotes the same final image; the image is not judged inside a phase. " + TRUST,
+         "5 C11"),
 }
 
 def hooks_commits():
